@@ -33,6 +33,12 @@ const FOREIGN: &[&str] = &[
     "#[a::b]",
     "#[::doc = \"global\"]",
     "#[ns::cfg::deeper(x)]",
+    "#[r#ref]",
+    "#[r#ref(x = 1)]",
+    "#[tool::r#move = 3]",
+    "#[tool::r#move]",
+    "#[kind(not_raw)]",
+    "#[tool::r#mod::deeper]",
 ];
 
 const MALFORMED: &[&str] = &[" = \"x\"", "(a b)", "(= 3)", " = 5", "(a, , b)", "(a = )", "{a = 1}", "[a]", "(a(b c))", "(1 = 2)", "(a = 1 b = 2)"];
@@ -233,11 +239,11 @@ impl<'a> Gen<'a> {
     fn generics(&self, r: &mut Rng) -> (String, String) {
         if r.chance(1, 2) {
             // no parameter list; a where-clause is still possible
-            let w = if r.chance(1, 4) { *r.pick(&["where String: Clone", "where u8: Copy, Vec<u8>: Default"]) } else { "" };
+            let w = if r.chance(1, 4) { *r.pick(&["where String: Clone", "where u8: Copy, Vec<u8>: Default", "where"]) } else { "" };
             return (String::new(), w.to_string());
         }
         let g = *r.pick(&["<T>", "<'a, T: Clone + 'a>", "<T, U = u8>", "<const N: usize>", "<'a, 'b: 'a, T: ?Sized>", "<T: Iterator<Item = u8>, const N: usize = 3>"]);
-        let w = if r.chance(1, 2) { *r.pick(&["where T: Default", "where T: 'static + Send, Vec<T>: Clone", "where for<'x> &'x T: Copy"]) } else { "" };
+        let w = if r.chance(1, 2) { *r.pick(&["where T: Default", "where T: 'static + Send, Vec<T>: Clone", "where for<'x> &'x T: Copy", "where"]) } else { "" };
         (g.to_string(), w.to_string())
     }
 
@@ -317,6 +323,17 @@ impl syn::parse::Parse for UnnamedField {
 }
 
 /// one case: the element source text for receiver `me`; returns (case, answer)
+/// every other explicit discriminant arrives inside an invisible group, as an `$e:expr` fragment does
+/// (decided by the expression's tokens alone, so that all partitions of one group see the same element)
+fn group_discriminant(v: &mut syn::Variant) {
+    if let Some((_, e)) = &mut v.discriminant {
+        if ser::toks(e).len() % 2 == 1 {
+            let span = syn::spanned::Spanned::span(&*e);
+            *e = syn::Expr::Group(syn::ExprGroup { attrs: vec![], group_token: syn::token::Group { span }, expr: Box::new(e.clone()) });
+        }
+    }
+}
+
 pub fn case_from_source(ctx: &Ctx, me: usize, src: &str, no_sim: bool) -> Option<(Sx, String)> {
     let e = &ctx.entries[me];
     let info = (e.info)();
@@ -332,6 +349,9 @@ pub fn case_from_source(ctx: &Ctx, me: usize, src: &str, no_sim: bool) -> Option
     let (el, ans, attrs, ident): (Sx, String, Vec<syn::Attribute>, String) = match &e.run {
         OuterRun::Fdi(f) => {
             let mut di: syn::DeriveInput = syn::parse_str(src).ok()?;
+            if let syn::Data::Enum(en) = &mut di.data {
+                en.variants.iter_mut().for_each(group_discriminant);
+            }
             if let syn::Data::Struct(s) = &mut di.data {
                 for fld in s.fields.iter_mut() {
                     if ser::toks(&fld.ty).len() % 3 == 0 {
@@ -353,7 +373,8 @@ pub fn case_from_source(ctx: &Ctx, me: usize, src: &str, no_sim: bool) -> Option
             (tagged("fld", vec![ser::field(&fld)]), f(&fld), fld.attrs.clone(), String::new())
         }
         OuterRun::Fv(f) => {
-            let v: syn::Variant = syn::parse_str(src).ok()?;
+            let mut v: syn::Variant = syn::parse_str(src).ok()?;
+            group_discriminant(&mut v);
             let mut at = v.attrs.clone();
             v.fields.iter().for_each(|x| at.extend(x.attrs.iter().cloned()));
             (tagged("var", vec![ser::variant(&v)]), f(&v), at, String::new())
